@@ -195,8 +195,9 @@ def run(prog, tier) -> Result:
            nontrivial=False)
 
     tag_order_rules(prog, res)
-    from .c05 import quantum_cases
+    from .c05 import quantum_cases, ctor_cases
     quantum_cases(prog, cr, rule="R08.2c")      # the currency's quantum is its smallest fraction
+    ctor_cases(prog, cr, rule="R08.2d", flavors=("money",))   # every amount is rounded to it by the constructor
 
     # R08.2b smallest fraction = 10 ** -minor_unit, stored on the created unit; R08.4 validation precedes creation
     def nu_setup(minor, sf):
